@@ -401,8 +401,18 @@ func (g *gasGen) alpha(method, rest string, cand bool) []string {
 		}
 	}
 	thr := len(g.w.prev.keys)*2/3 + 1
+	// mostly exactly the threshold; sometimes one vote short (the ballot stays pending), sometimes the remaining
+	// members vote late, after the decision has executed (each late vote must open a new ballot, pay nothing)
+	k := thr
+	switch g.rng.IntN(10) {
+	case 0, 1:
+		k = thr - 1
+	case 2, 3, 4:
+		k = len(st)
+	}
+	g.rng.Shuffle(len(st), func(i, j int) { st[i], st[j] = st[j], st[i] })
 	var grp []string
-	for i := 0; i < thr && i < len(st); i++ {
+	for i := 0; i < k && i < len(st); i++ {
 		l := fmt.Sprintf("op %s %s %s", st[i], method, rest)
 		if i > 0 && g.rng.IntN(2) == 0 {
 			l += " blk=s"
